@@ -32,6 +32,7 @@ type frame struct {
 	env       map[ssa.Value]Value
 	block     *ssa.BasicBlock
 	prev      *ssa.BasicBlock
+	phiDone   bool
 	defers    []deferred
 	result    Value
 	panicking bool
@@ -223,6 +224,16 @@ func (e *Exec) callFunc(fn *ssa.Function, args []Value, env []Value) Value {
 		return nil
 	}
 	name := fn.String()
+	if len(e.spec) > 0 {
+		if _, isStub := stubs[name]; isStub || fn.Blocks == nil || fn.Recover != nil || len(e.callStack) > 300 ||
+			(fn.Pkg == e.x.hpkg && strings.HasPrefix(fn.Name(), "vf")) {
+			panic(specAbort{"call not allowed in a speculated region"})
+		}
+		if _, isPre := prefixStubs(name); isPre {
+			panic(specAbort{"stub call in a speculated region"})
+		}
+		return e.callSSA(fn, args, env)
+	}
 	if fn.Pkg == e.x.hpkg && strings.HasPrefix(fn.Name(), "vf") {
 		if h, ok := intrinsics[fn.Name()]; ok {
 			return h(e, fn, args)
@@ -357,7 +368,9 @@ func (fr *frame) runBlock() {
 			break
 		}
 	}
-	if nphi > 0 {
+	if fr.phiDone {
+		fr.phiDone = false
+	} else if nphi > 0 {
 		tmp := make([]Value, nphi)
 		for k := 0; k < nphi; k++ {
 			phi := b.Instrs[k].(*ssa.Phi)
@@ -416,6 +429,9 @@ func (fr *frame) prepareCall(c *ssa.CallCommon, instr ssa.Instruction) (Value, [
 func (fr *frame) visit(instr ssa.Instruction) bool {
 	e := fr.e
 	ts := e.ts
+	if len(e.spec) > 0 && !specAllowed(instr) {
+		panic(specAbort{"instruction not allowed in a speculated region"})
+	}
 	switch instr := instr.(type) {
 	case *ssa.DebugRef:
 	case *ssa.UnOp:
@@ -472,6 +488,14 @@ func (fr *frame) visit(instr ssa.Instruction) bool {
 		fr.store(instr, fr.get(instr.Addr), fr.get(instr.Val))
 	case *ssa.If:
 		c := fr.get(instr.Cond).(*Term)
+		if !c.IsConst() {
+			if fr.tryMerge(instr, c) {
+				return true
+			}
+			if len(e.spec) > 0 {
+				panic(specAbort{"nested branch cannot be merged"})
+			}
+		}
 		succ := 1
 		if e.branch(c) {
 			succ = 0
@@ -587,7 +611,6 @@ func (fr *frame) visit(instr ssa.Instruction) bool {
 	return false
 }
 
-
 func (fr *frame) toInt64(v ssa.Value) *Term {
 	t := fr.get(v).(*Term)
 	return fr.e.ext64(t, isSigned(v.Type()))
@@ -609,12 +632,15 @@ func (fr *frame) load(instr ssa.Instruction, p Value) Value {
 		if p == nil {
 			fr.throw("nil pointer dereference", instr)
 		}
+		if len(fr.e.spec) > 0 {
+			return copyVal(fr.e.read(p))
+		}
 		return copyVal(*p)
 	case *SymPtr:
 		e := fr.e
 		var r *Term
 		for i := len(p.cands) - 1; i >= 0; i-- {
-			v := (*p.cands[i]).(*Term)
+			v := e.read(p.cands[i]).(*Term)
 			if r == nil {
 				r = v
 			} else {
@@ -632,14 +658,27 @@ func (fr *frame) store(instr ssa.Instruction, p Value, v Value) {
 		if p == nil {
 			fr.throw("nil pointer dereference", instr)
 		}
+		if n := len(fr.e.spec); n > 0 {
+			switch v.(type) {
+			case Struct, Array:
+				panic(specAbort{"aggregate store"})
+			}
+			fr.e.spec[n-1].set(p, v)
+			return
+		}
 		storeInto(p, v)
 		return
 	case *SymPtr:
 		e := fr.e
 		nv := v.(*Term)
 		for i, c := range p.cands {
-			old := (*c).(*Term)
-			*c = e.ts.Ite(e.ts.Eq(p.idx, e.ts.Const(64, uint64(i))), nv, old)
+			old := e.read(c).(*Term)
+			nw := e.ts.Ite(e.ts.Eq(p.idx, e.ts.Const(64, uint64(i))), nv, old)
+			if n := len(e.spec); n > 0 {
+				e.spec[n-1].set(c, nw)
+			} else {
+				*c = nw
+			}
 		}
 		return
 	}
